@@ -150,3 +150,16 @@ def same_history(a, b, upto=None):
         if a[i].norm() != b[i].norm():
             return "event %d differs: %r vs %r" % (i, a[i], b[i])
     return None
+
+
+def mutated_paths(ev):
+    """Paths whose directory entry, data or metadata a mutating event changes."""
+    if ev.cls != "m":
+        return []
+    if ev.call in ("copy_file_range", "sendfile", "ficlone"):
+        return [ev.path] if ev.path else []          # path = destination, path2 = source (only read)
+    if ev.call in ("rename", "link"):
+        return [p for p in (ev.path, ev.path2) if p]
+    if ev.call == "symlink":
+        return [ev.path]                               # path2 is the link's target text
+    return [ev.path] if ev.path else []
